@@ -380,6 +380,24 @@ def _check_cache_times(ctx, P):
                     if not all(any(x[0] == "call" and x[3] == (cf.name, b) for x in walk(e)) for e in r):
                         okc = False
         ctx.ob("C12a.F6.refresh-times-returned", g.name, okc, g.loc(), "every updated_refresh_time() result is handed back through the filter_map (%d site(s))" % n_u)
+    # ... and nobody else moves a record up the ladder without handing the new refresh time back to be armed
+    ladder_fns = set()
+    for name in ("DnsCache::refresh_due_ptr", "DnsCache::refresh_due_srv_txt", "DnsCache::refresh_due_hosts"):
+        g = P.one(name)
+        ladder_fns |= {g.name} | set(P.closures_of.get(g.name, []))
+    for cf in P.lib_fns():
+        if cf.in_tests() or cf.name in ladder_fns or cf.name == u.name:
+            continue
+        for b, t in cf.calls():
+            if name_matches(cname(t), "DnsRecordExt::updated_refresh_time"):
+                ctr = tracer(P, cf)
+                r = [ctr.local(0, endpos(cf, rb)) for rb in cf.exits()]
+                somes = [alt for e in r for alt in strip(e) if alt[0] == "agg" and alt[3] == "Some"] or r
+                okc = all(any(x[0] == "call" and x[3] == (cf.name, b) for x in walk(alt)) for alt in somes)
+                ctx.ob("C12a.F6.refresh-times-returned", cf.name, okc, cf.loc(b),
+                       "the new refresh time is part of every value returned" if okc else
+                       "updated_refresh_time moves the record to its next refresh mark here but the new time is not handed back: no timer is armed "
+                       "for the 85/90/95% marks and they wait for unrelated traffic")
     # exception: refresh_no_more sets refresh := expires, armed when the record was stored
     rn = P.one("DnsRecord::refresh_no_more")
     rtr = tracer(P, rn)
@@ -421,6 +439,18 @@ def clause_b(ctx, P):
     pops = calls_to(run, "Zeroconf::pop_timers_till")
     ok = bool(pops) and loop_every_iteration_passes(run, main, loops[main], [pops[0][0]])
     ctx.ob("C12b.pop-every-iteration", run.name, ok, run.loc(), "passed timers are popped on every iteration of the run loop")
+    # ... with the clock of the work that follows: between the clock sample handed to pop_timers_till and the work of the
+    # iteration the daemon does not sleep (a timer that comes due while the work runs must survive until the next turn)
+    if pops and polls:
+        pb, pt_ = pops[0]
+        pe = tr.operand(pt_["args"][1], endpos(run, pb))
+        sample = [x[3][1] for x in walk(pe) if x[0] == "call" and name_matches(x[1], "current_time_millis") and x[3][0] == run.name]
+        starts = [pb] + sample
+        bad = [s for s in starts if polls[0][0] in run.reachable(s, removed_blocks=[main])]
+        ctx.ob("C12b.pop-with-the-works-clock", run.name, bool(sample) and not bad, run.loc(pb),
+               "pop_timers_till gets a clock sample taken after the poll of the same iteration" if (sample and not bad) else
+               "passed timers are popped before the poll of the iteration (or with a clock taken before it): a timer that came due while the "
+               "previous iteration's work ran is discarded with its work undone")
     pt = P.one("Zeroconf::pop_timers_till")
     ptr = tracer(P, pt)
     e_gt = guard_edges(P, pt, lambda atom, outcome, bb: atom[0] == "binop" and atom[1] == "Gt" and outcome is False)
